@@ -240,7 +240,7 @@ static void c12_run(vf_case *c)
     xdrv D; xdrv_init(&D, P, &A, o.rowmajor, nrhs, o.ldpad, rng_int(r, 0, 2), B0, 0);
     if (xo.ColPerm == MY_PERMC) rng_perm(r, D.perm_c, n);
     int use_ws = rng_bool(r, 0.15); void *work = NULL;
-    if (use_ws) { D.lwork = (int_t)generous_lwork(P, n, A.nnz); work = malloc((size_t)D.lwork); D.work = work; }
+    if (use_ws) { D.lwork = (int_t)generous_lwork(P, n, A.nnz); work = vf_ws_alloc(c, (size_t)D.lwork); D.work = work; }
 
     xdrv_call(&D, &xo);
 
